@@ -49,6 +49,7 @@ def record(src):
     obs = json.loads(lines[-1])
     case = {'kind': 'minimize', 'orig': obs['orig'], 'exc': obs['exc'], 'where': obs.get('where', ''), 'stmt': obs.get('stmt', ''),
             'chain': obs.get('chain', []), 'validation': src['validation'], 'src': src}
+    case['cuts'] = obs.get('cuts', {})
     case['res'] = obs.get('res', obs['orig'])
     case['has_res'] = bool(obs.get('has_res')) or not obs['exc']
     return case
